@@ -342,5 +342,50 @@ fn main() {
         }
         t
     });
+    // ---- S6: word-level perturbations of value-equal pairs ------------------------------------------
+    // the scaled comparison works on 32-bit words: besides value-equal pairs and +-1 neighbours, compare
+    // A against B*10^k where A is the product with a word dropped, truncated, or changed by +-2^(32j)
+    let bmax: u32 = tier.pick(400, 3000);
+    run.bound("S6_B_max", bmax);
+    run.par("S6 word-level perturbations", 21, |ki| {
+        let k = ki as u64 + 1;
+        let mut t = Tally::default();
+        let p10 = pow10(k);
+        let mut bs: Vec<BigInt> = (1..=bmax).map(BigInt::from).collect();
+        for e in [31usize, 32, 33, 63, 64, 65, 95, 96, 127, 128] {
+            for d in [-1i64, 0, 1, 7] {
+                bs.push((BigInt::one() << e) + d);
+            }
+        }
+        for b in bs.iter() {
+            let prod = b * &p10;
+            let words = ((prod.bits() + 31) / 32) as usize;
+            let mut cands: Vec<BigInt> = vec![];
+            for j in 1..=words {
+                let w = BigInt::one() << (32 * j);
+                cands.push(&prod % &w); // high words dropped
+                cands.push(&prod + &w); // one more in word j
+                if prod > w {
+                    cands.push(&prod - &w);
+                }
+                cands.push(&prod >> (32 * j)); // low words dropped
+            }
+            cands.push(&prod + (BigInt::one() << 31usize));
+            for a in cands {
+                if a.is_zero() {
+                    continue;
+                }
+                for neg in [false, true] {
+                    let sg = if neg { -1 } else { 1 };
+                    let x = Dec { n: &a * sg, s: k as i128 };
+                    let y = Dec { n: b * sg, s: 0 };
+                    t.nontrivial += 2;
+                    full_check(&run, &x, &y, &mut t);
+                }
+            }
+        }
+        run.sample(|| json!({"a": "2705032704e-9", "b": "7e0"}));
+        t
+    });
     run.finish();
 }
